@@ -10,6 +10,8 @@ from ..ruleprops import violation
 
 RULE = ("seeded structured elections x (additive measure, tie rule, Profile/MultiProfile, resolute/irresolute, binary_sat in "
         "{default, True, False}); predicate = independent textbook Equal Shares (rich/poor fixed point on the expanded voter list); "
+        "plus degenerate budgets (exactly 0 / one project's cost / the total) with supported zero-cost projects, and calls passing "
+        "sat_profile= (alone, next to a sat_class naming another measure, or without voters: the documented precedence decides; predicate only); "
         "non-trivial = at least 2 purchases and at least one supporter capped by their remaining money; distinct by case+cfg hash")
 ASSUMPTIONS = ["exact-arithmetic mode", "additive satisfaction measures", "initial allocation empty"]
 TRUSTED = ["sqrt/log measures: utilities are dumped from the library's own measure objects (floats are not recomputed)"]
@@ -17,7 +19,10 @@ TRUSTED = ["sqrt/log measures: utilities are dumped from the library's own measu
 
 def utilities_for(it):
     """independent utilities U[v][name] on the expanded voter list"""
-    case, cfg = it.case, it.cfg
+    return utilities_of(it.case, it.cfg)
+
+
+def utilities_of(case, cfg):
     sat = cfg["sat"]
     if sat in ("Additive_Cost_Sqrt_Sat",):
         return [{p: (F(math.sqrt(float(case.cost[p]))) if p in b else F(0)) for p in case.names} for b in case.ballots]
@@ -33,9 +38,20 @@ def predicate(it):
     case, cfg = it.case, it.cfg
     kind, val = it.ans
     sig = {"rule": "mes", "sat": cfg.get("sat"), "binary": cfg.get("binary"), "multi": bool(cfg.get("multi")), "res": bool(cfg.get("res", True))}
+    if cfg.get("sp_sat"):
+        sig["sat_profile_arg"] = cfg.get("sp_mode")
     if kind == "err":
         return [violation(f"Equal Shares raised {val}: {it.raw!r}", case, cfg, impl=rules.canon(it.ans), sig=dict(sig, err=val))]
-    U = utilities_for(it)
+    # a caller-supplied satisfaction profile decides the utilities, whatever sat_class names (documented precedence)
+    ecase, ecfg = ruleprops.effective(case, cfg)
+    if not ecase.ballots:
+        # a satisfaction profile without voters: no project has a supporter, nothing is bought
+        it.capped, it.n_bought = False, 0
+        got = [sorted(val)] if kind == "ok" else sorted(sorted(w) for w in val)
+        if got != [[]]:
+            return [violation("Equal Shares was handed a satisfaction profile without voters and selected projects", case, cfg, impl=got, expected=[[]], sig=sig)]
+        return []
+    U = utilities_of(ecase, ecfg)
     names = case.names
     if kind == "ok":
         exp, money = oracle.mes(case, U, tie=cfg.get("tie", "lexico"))
@@ -96,11 +112,39 @@ def pairs(ctx, n, btypes=("app", "app", "card", "cum", "ord")):
         yield case, cfg
 
 
+def degenerate_pairs(ctx, n):
+    """degenerate budgets (0, the cost of one project, the total, ...) x zero-cost projects with supporters"""
+    rng = ctx.rng
+    for _ in range(n):
+        case = core.gen_degenerate_election(rng, btypes=("app", "app", "card", "cum", "ord"))
+        cfg = rulegen.gen_rule_cfg(rng, case, rules=("mes",), allow_refuse=False)
+        ctx.count("stream", "degenerate-budget:" + ("zero" if case.budget == 0 else "one-project" if case.budget in case.cost.values() else "other"))
+        if case.budget == 0 and any(c == 0 for c in case.cost.values()):
+            ctx.count("stream", "degenerate-budget: budget 0 with a zero-cost project")
+        yield case, cfg
+
+
+def satprofile_pairs(ctx, n):
+    """calls that pass sat_profile= (alone, next to a sat_class naming another measure, or holding no voter): judged by the
+    documented precedence — the satisfaction profile decides"""
+    rng = ctx.rng
+    for _ in range(n):
+        case = core.gen_election(rng, btypes=("app", "app", "card", "cum", "ord"), m_lo=1) if rng.random() < 0.6 else core.gen_tight_election(rng, btypes=("app", "card"))
+        cfg = rulegen.gen_satprofile_cfg(rng, case, "mes", modes=("only", "other-measure", "other-measure", "empty"), allow_refuse=False)
+        if not cfg["res"] and len(case.projects) > 5:
+            cfg["res"] = True
+        ctx.count("stream", "sat_profile-argument:" + cfg["sp_mode"])
+        yield case, cfg
+
+
 def run(ctx):
     ctx.rule = RULE
     items = ruleprops.run_items(ctx, pairs(ctx, ctx.scale(3000, 30000)), predicate, nontrivial)
     lazy_diff(ctx, items)
     history.run_history(ctx, "mes", ctx.scale(300, 3000))
+    # round 4 (drawn after the streams above, whose seeds are unchanged)
+    items += ruleprops.run_items(ctx, degenerate_pairs(ctx, ctx.scale(800, 6000)), predicate, nontrivial)
+    items += ruleprops.run_items(ctx, satprofile_pairs(ctx, ctx.scale(600, 5000)), predicate, nontrivial, compare=False)
     ctx.extra["capped_runs"] = sum(1 for it in items if getattr(it, "capped", False))
     ctx.extra["binary_sat"] = {str(k): sum(1 for it in items if it.cfg.get("binary") == k) for k in (None, True, False)}
 
@@ -140,6 +184,8 @@ def lazy_diff(ctx, items):
 def search(ctx, disagreements):
     ctx.rule = RULE
     ruleprops.run_items(ctx, pairs(ctx, 8000), predicate, nontrivial, compare=False)
+    ruleprops.run_items(ctx, degenerate_pairs(ctx, 3000), predicate, nontrivial, compare=False, keep=False)
+    ruleprops.run_items(ctx, satprofile_pairs(ctx, 3000), predicate, nontrivial, compare=False, keep=False)
 
 
 def replay(payload):
@@ -147,6 +193,8 @@ def replay(payload):
         return history.replay(payload)
     case = Case.from_json(payload["case"])
     cfg = ruleprops.cfg_from_json(payload["cfg"])
+    if not ruleprops.well_formed(case, cfg):
+        return True, ruleprops.NOT_AN_INPUT
     built = rules.Built(case, multi=cfg.get("multi", False))
     ans, raw = rules.impl_answer(built, cfg)
     it = ruleprops.Item(case, cfg, built, ans, raw, None)
